@@ -10,7 +10,9 @@ PROPERTY = dict(
                 "solver; inverse-trig results are compared by cross-multiplication.",
     bounds="straight-line code except ecef2geodetic, whose fixed-point loop is explored on the ellipsoid surface stratum h = 0 "
            "only (two iterations reach the fixed point exactly there); loop bound 4",
-    outside=["convergence of the ecef2geodetic iteration for h != 0 (needs the loop body in isolation, not reachable without a "
+    wall_limit=dict(quick=150, thorough=600),
+    outside=["geodetic -> ECEF -> geodetic: attempted in the thorough tier on the ellipsoid surface only and currently undecided "
+             "there (the solvers do not identify the iterates' angle atoms within the wall limit); not claimed", "convergence of the ecef2geodetic iteration for h != 0 (needs the loop body in isolation, not reachable without a "
              "source hook) and its behaviour at the poles in float arithmetic", "rounding"],
 )
 FF = 'ahrs.common.frames:'
@@ -88,7 +90,7 @@ def llf(h):
     h.check('ecef2llf orthogonal', h.eq(B @ B.T, I.astype(object) if h.sym else I))
 
 
-@harness('C17/geodetic.surface', functions=[FF + 'geodetic2ecef', FF + 'ecef2geodetic'], max_paths=8,
+@harness('C17/geodetic.surface', tiers=('thorough',), functions=[FF + 'geodetic2ecef', FF + 'ecef2geodetic'], max_paths=8, max_decisions=10,
          bounds='height 0 (ellipsoid surface); loop iterations <= 4')
 def geodetic_surface(h):
     """geodetic -> ECEF -> geodetic returns (lat, lon, 0) for points on the ellipsoid, |lat| <= 89.9 deg"""
